@@ -3,7 +3,7 @@ CONSTANTS
  Copies = 1  Pad = 0  Concat = FALSE
  OutOvh = 1
  EarlyTailError = FALSE
- MaxReinit = 0 MemStop = 1000000 MaxRaise = 0 Tell = "none"
+ MaxReinit = 0 MemStop = 1000000 MaxRaise = 0 MayFailMain = FALSE Tell = "none"
  CountCalls = TRUE
  NW = 3  HdrSz = 2  TailSz = 2  TailOk = TRUE  Chunk = 2
  Blocks <- B_sim4
